@@ -205,7 +205,7 @@ def check(case):
 # ------------------------------------------------------------------------------------------------
 
 free_note = st.tuples(
-    st.integers(0, 2), st.integers(0, 400), st.sampled_from([1, 2, 3, 4, 48, 7]), st.integers(0, 7),
+    st.integers(0, 2), st.integers(0, 400), st.sampled_from([1, 2, 3, 4, 48, 7, 96, 192, 384, 1000]), st.integers(0, 7),
     st.sampled_from(N.NOTE_CHARS), st.one_of(st.none(), st.integers(0, 99)),
 )
 
@@ -213,8 +213,12 @@ free_note = st.tuples(
 @st.composite
 def free_pair(draw):
     a = draw(free_note)
-    mode = draw(st.integers(0, 3))
-    if mode == 0:
+    mode = draw(st.integers(0, 4))
+    if mode == 4:  # a little later (closer than a tick, 1/48 beat), in a lower or equal column
+        den = draw(st.sampled_from([384, 768, 1000, 960]))
+        bn = a[1] * den + draw(st.integers(1, den // 48 - 1)) * a[2]
+        b = (a[0], bn, a[2] * den, draw(st.integers(0, a[3])), draw(st.sampled_from(N.NOTE_CHARS)), a[5])
+    elif mode == 0:
         b = draw(free_note)
     elif mode == 1:  # same position, different type / keysound
         b = (a[0], a[1], a[2], a[3], draw(st.sampled_from(N.NOTE_CHARS)), draw(st.one_of(st.none(), st.integers(0, 99))))
